@@ -626,6 +626,7 @@ class Ctx:
         self.faults, self.probes, self.nontrivial = {}, {}, []
         self.aborts = 0
         self.seen_row = None
+        self.fail_runs = []
         self._init_cache, self._base_rows = {}, {}
         self.sample = []
 
@@ -644,6 +645,13 @@ class Ctx:
 
         def stub_run(self_, *a, **k):
             ctx.calls.append((a, k))
+            if ctx.fail_runs:
+                # fault: the downstream node (parameters + optimiser) fails transiently for THIS message
+                kind, ctx.fail_runs = ctx.fail_runs.pop(0), ctx.fail_runs[1:]
+                ctx.fault("downstream_failure_" + kind)
+                if kind == "solver":
+                    raise m.pulp.PulpSolverError("simulated: cbc could not be executed")
+                raise AssertionError("ERROR: OPTIMIZATION FAILED (simulated)")
             return types.SimpleNamespace(percent_people_fed=50.0)
 
         def guard_compute(self_, *a, **k):
@@ -784,19 +792,33 @@ def op_dispatch(ctx, op):
     scale = scale_of(iso3)
     snap = core.digest(D)
     order = list(D)
+    if fk == "downstream_failure":
+        ctx.fail_runs = [fault.get("exc", "solver")]
+    n_calls = len(ctx.calls)
     out = run_dispatch(ctx, iso3, D, via)
+    ctx.fail_runs = []
     # (c) caller's dictionary
     ctx.V.check(V_DICT, core.digest(D) == snap, {"kind": "dict_modified", "entry": "run_optimizer_for_country" if via == "rofc" else "set_depending_on_option"},
                 lambda: {"before": dict(op["opts"]), "after": D, "iso3": iso3}, "caller's option dictionary was modified")
     if list(D) != order:
         ctx.probe("caller_dict_key_order_changed")
-    if fk:
+    if fk and fk != "downstream_failure":
         ctx.fault(fk)
     foc = op.get("focus") or {}
     ctx.nontrivial.append(core.digest(["dispatch", scale, foc.get("family"), repr(foc.get("value")), fk]))
     acc = out["status"] == "accepted"
     ctx.log.add("OP", op="dispatch", iso3=iso3, fault=fk, focus=foc, status=out["status"], exc=out["exc"], reached=out["reached"])
-    if fk in (None, "permute"):
+    if fk == "downstream_failure":
+        fk = None  # counted below under its own name
+        if not acc:
+            ctx.probe("downstream_failure_propagated:" + str(out["exc"]))  # fail-stop: nothing returned, no verdict
+        else:
+            # the dispatcher carried on after the failure and delivered (again): what it delivered last is judged
+            ctx.probe("downstream_failure_swallowed")
+            ctx.V.ev(V_VALUE)
+            check_constants(ctx, V_VALUE, {"mode": "dispatch_after_downstream_failure", "scale": scale}, D, out, iso3,
+                            {"deliveries": len(ctx.calls) - n_calls})
+    elif fk in (None, "permute"):
         ctx.V.ev(V_VALUE)
         if not acc:
             ctx.V.fail(V_VALUE, {"kind": "supported_value_rejected", "family": foc.get("family"), "value": foc.get("value"),
@@ -1589,7 +1611,25 @@ def build_plan(seed, tier):
         sp = r.pick(SPECIES)
         ops.append({"k": "override", "iso3": iso3, "key": sp + "_head", "value": r.randrange(0, 10 ** 7), "opts": pairs(base_opts(r, iso3))})
 
+    # N. the node downstream of the dispatcher (parameters + optimiser) fails transiently for one message; the same
+    #    country is then sent a clean message with the same scenario / cull and another feed shut-off
+    r = rng.sub("downstream")
+    nd = []
+    for iso3 in (r.sample(countries, 40) + ["USA", "SLV"]) if thorough else (["USA"] + seeded[:5]):
+        o = base_opts(r, iso3)
+        o["shutoff"] = r.pick([v for v in values_table(C)["shutoff"] if v != "immediate"])
+        nd.append(_dispatch_op(iso3, o, r, {"family": "shutoff", "value": o["shutoff"]},
+                               {"kind": "downstream_failure", "exc": r.pick(["solver", "assert"])}))
+        o2 = dict(o)
+        o2["shutoff"] = r.pick([v for v in values_table(C)["shutoff"] if v not in ("immediate", o["shutoff"])])
+        o2["waste"] = r.pick(values_table(C)["waste"])
+        nd.append(_dispatch_op(iso3, o2, r, {"family": "shutoff", "value": o2["shutoff"]}))
+
     rng.sub("shuffle").shuffle(ops)
+    # the failure / clean-retry pairs stay adjacent and in order, at seeded places of the plan
+    for i in range(0, len(nd), 2):
+        at = r.randrange(len(ops) + 1)
+        ops[at:at] = nd[i:i + 2]
     _PLAN_CACHE[key] = ops
     return ops
 
